@@ -17,7 +17,7 @@ const propC14 = "C14"
 var DevCommands = []string{"migrate-validate", "migrate-diff", "migrate-lint", "schema-apply-dir", "schema-apply-sql", "schema-diff-sql", "schema-inspect-sql", "schema-apply-hcl-dev"}
 
 // DevStates are the initial states of the dev database.
-var DevStates = []string{"no-file", "empty-file", "user-tables", "leftovers", "view-only", "virtual-tables", "table-named-like-internal"}
+var DevStates = []string{"no-file", "empty-file", "user-tables", "leftovers", "view-only", "virtual-tables", "table-named-like-internal", "revisions-table-only"}
 
 func devMaster(d *observe.Dump) string {
 	m := append([]string(nil), d.Master...)
@@ -289,6 +289,20 @@ func C14(r *simkit.Run) {
 			simkit.Harnessf("dev init: %v", err)
 		}
 		db.Close()
+	case "revisions-table-only":
+		// Reached, not fabricated: the database was once the *target* of `migrate apply`, and what the
+		// migrations created has been dropped since. All it holds is Atlas's own revisions table, with
+		// the history of that deployment in it.
+		cw := *w
+		cw.Mig = filepath.Join(w.Root, "earlier")
+		os.MkdirAll(cw.Mig, 0o755)
+		os.WriteFile(filepath.Join(cw.Mig, "1_init.sql"), []byte("CREATE TABLE once (id int);\nDROP TABLE once;\n"), 0o644)
+		if res := w.Atlas(nil, "migrate", "hash", "--dir", "file://"+cw.Mig); res.Exit != 0 {
+			simkit.Harnessf("migrate hash of the earlier directory: %s", res.ErrLine())
+		}
+		if res := w.Atlas(nil, "migrate", "apply", "--dir", "file://"+cw.Mig, "-u", w.DevURL()); res.Exit != 0 {
+			simkit.Harnessf("migrate apply onto the later dev database: %s", res.ErrLine())
+		}
 	case "leftovers":
 		// Reached, not fabricated: an earlier `migrate validate --dev-url` is killed in the middle of its replay.
 		clean := GenDir(t, 1, 2, 3, true)
